@@ -114,7 +114,7 @@ Proof.
   intros H; injection H as <- <-. cbn.
   pose proof (send_phase_inv _ _ _ _ _ _ E) as (_ & _ & T & _).
   split; [exact T|split; [reflexivity|split; [repeat split|]]].
-  apply send_phase_contents in E. destruct E as [(Q & -> & _)|[(old & Q & _ & -> & _)|(Q & NT & _)]].
+  apply send_phase_contents in E. destruct E as [(Q & -> & _)|[(old & Q & _ & -> & _ & _)|(Q & NT & _)]].
   - left. auto.
   - right; left. eauto.
   - right; right. split; [exact Q|]. intros ->. now apply NT.
@@ -464,8 +464,13 @@ Definition louds h := filter loud h.
 
 Lemma louds_app h1 h2 : louds (h1 ++ h2) = louds h1 ++ louds h2.
 Proof. apply filter_app. Qed.
-Lemma louds_subdrops sid {Y} (l : list Y) : louds (rev (map (fun _ => ESubDrop (State := State) sid) l)) = [].
-Proof. induction l as [|c r IH]; [reflexivity|]. cbn. rewrite louds_app, IH. reflexivity. Qed.
+Lemma louds_sub_events sid x sr dr : louds (rev (sub_events (State := State) sid x sr dr)) = [].
+Proof.
+  unfold sub_events. rewrite rev_app_distr, louds_app.
+  assert (D : forall (l : list (State * aid)), louds (rev (map (fun _ => ESubDrop (State := State) sid) l)) = []).
+  { induction l as [|c r IH]; [reflexivity|]. cbn. rewrite louds_app, IH. reflexivity. }
+  rewrite D, app_nil_r. destruct sr as [ph|[|]]; [|destruct x as [[s a]|]|]; reflexivity.
+Qed.
 
 Lemma louds_cons e h : louds (e :: h) = if loud e then e :: louds h else louds h.
 Proof. reflexivity. Qed.
@@ -475,7 +480,7 @@ Lemma sub_phase_louds w sid x ph w1 sr : sub_phase w sid x ph = Some (w1, sr) ->
 Proof.
   unfold sub_phase. destruct (get_chan (w_chans w) sid) as [c|].
   - destruct (send_phase c x ph) as [[[c' sr'] dr]|]; [|discriminate].
-    intros H; injection H as <- <-. cbn. now rewrite louds_app, louds_subdrops.
+    intros H; injection H as <- <-. cbn. now rewrite louds_app, louds_sub_events.
   - intros H; injection H as <- <-. reflexivity.
 Qed.
 
@@ -546,6 +551,36 @@ Qed.
 
 End WorldStop.
 
+(* the same tactics, for use outside this file *)
+Ltac use_frames :=
+  repeat match goal with
+  | H : dq_phase _ _ _ = Some (_, _) |- _ =>
+      let F := fresh "FR" in pose proof H as F; apply dq_phase_frame in F;
+      destruct F as (? & ? & (? & ? & ? & ? & ? & ? & ? & ? & ? & ?) & _); revert H
+  | H : sub_phase _ _ _ _ = Some (_, _) |- _ =>
+      let F := fresh "FR" in pose proof H as F; apply sub_phase_frame in F;
+      destruct F as (? & (? & ? & ? & ? & ? & ? & ? & ? & ? & ?)); revert H
+  end; intros.
 
+Ltac rew_frames :=
+  simp_world;
+  repeat match goal with
+  | E : w_threads ?w1 = _ |- context [w_threads ?w1] => rewrite E
+  | E : w_tx_open ?w1 = _ |- context [w_tx_open ?w1] => rewrite E
+  | E : tx_alive (w_dq ?w1) = _ |- context [tx_alive (w_dq ?w1)] => rewrite E
+  | E : w_dq ?w1 = _ |- context [w_dq ?w1] => rewrite E
+  | E : w_next_tid ?w1 = _ |- context [w_next_tid ?w1] => rewrite E
+  | E : w_pool ?w1 = _ |- context [w_pool ?w1] => rewrite E
+  | E : w_subs ?w1 = _ |- context [w_subs ?w1] => rewrite E
+  | E : w_chans ?w1 = _ |- context [w_chans ?w1] => rewrite E
+  | E : w_state ?w1 = _ |- context [w_state ?w1] => rewrite E
+  | E : w_reducers ?w1 = _ |- context [w_reducers ?w1] => rewrite E
+  | E : w_mws ?w1 = _ |- context [w_mws ?w1] => rewrite E
+  | E : w_lasts ?w1 = _ |- context [w_lasts ?w1] => rewrite E
+  | E : w_iter_done ?w1 = _ |- context [w_iter_done ?w1] => rewrite E
+  end; simp_world.
 
+(* a thread-table invariant after a step: the stepping thread's new entry satisfies it *)
+Ltac solve_threads_all T :=
+  rew_frames; repeat (apply threads_all_put; [|cbn; eauto]); try exact T.
 
